@@ -14,8 +14,8 @@ RULE = ('random directory trees (depth <= 4): tests modules and tests packages w
         '"cli" cases run --list-tests with -m filters and -s packages and record which module files executed; '
         'non-trivial = at least one file found and one candidate rejected')
 TRUSTED_BASE = ["os.walk, the import system and Python's re (identifier / tests / test-file patterns are oracles on names) are external"]
-ASSUMPTIONS = ['no symlinks; in CLI cases distinct files map to distinct module names (generator rejects collisions: '
-               'Python itself would import only one of them)']
+ASSUMPTIONS = ['no symlinks; in CLI cases distinct files map to distinct module names (generator rejects collisions of module '
+               'and package names between roots: Python itself would import only one of them)']
 
 DIRN = ['pkg', 'tests', 'ftests', 'sub', 'my-data', 'node_modules', '.git', '__pycache__', 'CVS', 't2', 'tests_more', '9lives', 'deep', 'pkg2', 'subs']
 FILEN = ['tests.py', 'test_a.py', 'test_b.py', 'testing.py', 'mod.py', '__init__.py', 'ftests.py', 'tests.txt',
@@ -59,6 +59,24 @@ def module_names(c):
                 out.append('.'.join(rel[:-1] + (rel[-1][:-3],)))
                 break
     return out
+
+
+def package_clash(c):
+    """True when one dotted package name belongs to two different directories (a package under one root shadows the
+    package of the same name under another: Python would import from only one of them)."""
+    roots = sorted([tuple(r[1]) for r in c['roots']], key=len, reverse=True)
+    owner = {}
+    for p in treelib.all_files(c['tree']):
+        if not p[-1].endswith('.py'):
+            continue
+        for r in roots:
+            if p[:len(r)] == r:
+                rel = p[len(r):-1]
+                for k in range(1, len(rel) + 1):
+                    if owner.setdefault('.'.join(rel[:k]), p[:len(r) + k]) != p[:len(r) + k]:
+                        return True
+                break
+    return False
 
 
 def generate(rng, tier, rep):
@@ -117,7 +135,7 @@ def generate(rng, tier, rep):
              'topname': rng.choice(['c%d' % i, 'tests', 'c%d' % i])}
         if cli:
             names = module_names(c)
-            if len(names) != len(set(names)) or {'fw', 'treelib', 'props', 'zope'} & set(x.split('.')[0] for x in names):
+            if len(names) != len(set(names)) or package_clash(c) or {'fw', 'treelib', 'props', 'zope'} & set(x.split('.')[0] for x in names):
                 continue
         cases.append(c)
         rep.count('mode=' + c['mode'])
